@@ -187,27 +187,33 @@ func (g *IG) modelDefers() {
 			// a defer inside one arm of an if (not in a loop) runs exactly when that
 			// arm was taken: it is modelled under a second test of the same condition
 			guard := map[*ssa.Defer]Edge{}
+			var live []*ssa.Defer // the defers that can have been registered when R runs
 			for _, D := range defers {
 				dn := g.Idx[D]
 				// D on every path to R, and not on a cycle
-				if g.Reach(g.Succ[dn], nil, nil)[dn] {
+				after := g.Reach(g.Succ[dn], nil, nil)
+				if after[dn] {
 					ok = false
 				}
+				if !after[R] {
+					continue // this exit is left before D is registered
+				}
+				live = append(live, D)
 				if p := g.Path([]int{entry}, nil, func(n int) bool { return n == dn }, func(n int) bool { return n == R }); p != nil {
-					if e, isArm := g.armOf(D.Block()); isArm && len(runs) == 1 {
+					if e, isArm := g.armOf(D.Block()); isArm {
 						guard[D] = e
 					} else {
 						ok = false
 					}
 				}
 			}
-			if !ok {
+			if !ok || len(live) == 0 {
 				continue
 			}
 			next := g.Succ[R]
 			cur := R
-			for i := len(defers) - 1; i >= 0; i-- {
-				D := defers[i]
+			for i := len(live) - 1; i >= 0; i-- {
+				D := live[i]
 				join := -1
 				if e, guarded := guard[D]; guarded {
 					// if <same condition> { deferred call }; join
@@ -268,10 +274,10 @@ func (g *IG) modelDefers() {
 							}
 						}
 						g.Succ[cur] = []int{g.First[cl.Blocks[0]]}
-						// its returns continue after the deferred call; with several
-						// RunDefers only the first is exact, so only a single
-						// RunDefers gets a spliced body
-						if len(runs) == 1 {
+						// its returns continue after the deferred call (the body is spliced
+						// at the first exit on which the defer can have been registered;
+						// other such exits only get the call node)
+						{
 							// placeholder node that the returns lead to
 							j := len(g.Ins)
 							g.Ins = append(g.Ins, fake)
@@ -1649,13 +1655,37 @@ func (g *IG) flattenCase(c RetCase, blk *ssa.BasicBlock, depth int) []RetCase {
 	}
 	// a value returned by a spliced multi-return helper: one case per return of
 	// the helper (single-return helpers were resolved by replaceUses)
-	for _, v := range c.Vals {
-		var call *ssa.Call
+	// resOf: v is a result component of a call
+	resOf := func(v ssa.Value) (*ssa.Call, int) {
 		switch x := v.(type) {
 		case *ssa.Call:
-			call = x
+			return x, 0
 		case *ssa.Extract:
-			call, _ = x.Tuple.(*ssa.Call)
+			if cl, ok := x.Tuple.(*ssa.Call); ok {
+				return cl, x.Index
+			}
+		}
+		return nil, 0
+	}
+	// nilCmpOf: v is `r == nil` / `r != nil` for a result component r of a call
+	nilCmpOf := func(v ssa.Value) (*ssa.Call, int, token.Token) {
+		cmp, ok := v.(*ssa.BinOp)
+		if !ok || (cmp.Op != token.EQL && cmp.Op != token.NEQ) {
+			return nil, 0, 0
+		}
+		for _, pr := range [][2]ssa.Value{{cmp.X, cmp.Y}, {cmp.Y, cmp.X}} {
+			if isNilConst(pr[1]) {
+				if cl, i := resOf(pr[0]); cl != nil {
+					return cl, i, cmp.Op
+				}
+			}
+		}
+		return nil, 0, 0
+	}
+	for _, v := range c.Vals {
+		call, _ := resOf(v)
+		if call == nil {
+			call, _, _ = nilCmpOf(v)
 		}
 		if call == nil {
 			continue
@@ -1675,13 +1705,44 @@ func (g *IG) flattenCase(c RetCase, blk *ssa.BasicBlock, depth int) []RetCase {
 				continue
 			}
 			ret := ir.Instruction.(*ssa.Return)
+			// (a return of the helper that the caller's test of the result sends
+			// elsewhere does not lead to this case)
+			cn := g.Idx[call]
+			if r := g.Reach(g.Succ[last], nil, func(k int) bool { return k == cn }); !r[c.At] && c.At != last {
+				continue
+			}
 			nc := RetCase{Ret: c.Ret, Vals: make([]ssa.Value, len(c.Vals)), At: last}
+			nc.Req = append(nc.Req, c.Req...)
+			// what every way from this return of the helper to the case's node tests
+			// (the caller's `if err != nil` after the call) belongs to the case
+			if c.At != last {
+				stop := func(k int) bool { return k == cn }
+				r0 := g.Reach(g.Succ[last], nil, stop)
+				for _, f := range g.rawEdgeFacts() {
+					if !r0[f.Edge.From] {
+						continue
+					}
+					if r := g.Reach(g.Succ[last], map[Edge]bool{f.Edge: true}, stop); !r[c.At] {
+						nc.Req = append(nc.Req, f)
+					}
+				}
+			}
 			for j, w := range c.Vals {
 				nc.Vals[j] = w
 				if w == ssa.Value(call) && len(ret.Results) == 1 {
 					nc.Vals[j] = ret.Results[0]
 				} else if ex, ok := w.(*ssa.Extract); ok && ex.Tuple == ssa.Value(call) && ex.Index < len(ret.Results) {
 					nc.Vals[j] = ret.Results[ex.Index]
+				} else if cl, idx, op := nilCmpOf(w); cl == call && idx < len(ret.Results) {
+					// `return helper() == nil`: decided by what this return of the helper gives
+					o := ret.Results[idx]
+					isNil, nonNil := g.caseNil(RetCase{At: last}, o)
+					switch {
+					case isNil:
+						nc.Vals[j] = boolConst(op == token.EQL)
+					case nonNil:
+						nc.Vals[j] = boolConst(op == token.NEQ)
+					}
 				}
 			}
 			out = append(out, g.flattenCase(nc, b, depth+1)...)
@@ -1963,13 +2024,17 @@ func (g *IG) substAt(at int) func(ssa.Value) ssa.Value {
 		if phi, ok := v.(*ssa.Phi); ok {
 			return g.phiAt(phi, at)
 		}
+		if ex, ok := v.(*ssa.Extract); ok {
+			return g.extractAt(ex, at)
+		}
 		return nil
 	}
 }
 
 // CaseFacts returns the facts that hold in a return case.
 func (g *IG) CaseFacts(c RetCase) []Fact {
-	facts := g.FactsAt(c.At)
+	facts := append([]Fact(nil), c.Req...)
+	facts = append(facts, g.FactsAt(c.At)...)
 	if c.Edge != nil {
 		if f, ok := g.EdgeFact(c.Edge.From, c.Edge.K); ok {
 			facts = append(facts, g.expandBoolPhis([]Fact{f}, 0)...)
@@ -2323,4 +2388,129 @@ func boolConst(b bool) *ssa.Const {
 	c := ssa.NewConst(constant.MakeBool(b), types.Typ[types.Bool])
 	boolConsts[b] = c
 	return c
+}
+
+// inLoop: node n lies on a cycle through the header block hdr, spliced helpers
+// included (a helper called from the loop body belongs to another function and
+// has no loop of its own): n is reachable from the header and can reach it.
+func (g *IG) inLoop(n int, hdr *ssa.BasicBlock) bool {
+	var hs []int
+	for k, in := range g.Ins {
+		if in != nil && in.Block() == hdr {
+			hs = append(hs, k)
+		}
+	}
+	if len(hs) == 0 {
+		return false
+	}
+	from := g.Reach(hs, nil, nil)
+	if !from[n] {
+		return false
+	}
+	to := g.Reach(g.Succ[n], nil, nil)
+	for _, h := range hs {
+		if to[h] {
+			return true
+		}
+	}
+	return false
+}
+
+// loopsAround lists the headers of the loops of the analysed function (not of
+// spliced helpers) that node n lies in, innermost first.
+func (g *IG) loopsAround(n int) []*ssa.BasicBlock {
+	var out []*ssa.BasicBlock
+	seen := map[*ssa.BasicBlock]bool{}
+	for _, f := range g.Funcs {
+		for _, b := range f.Blocks {
+			h, _ := loopOf(b)
+			if h == nil || seen[h] {
+				continue
+			}
+			seen[h] = true
+			if g.inLoop(n, h) {
+				out = append(out, h)
+			}
+		}
+	}
+	// innermost first: a loop whose body is contained in another's comes first
+	sort.SliceStable(out, func(i, j int) bool {
+		_, bi := loopOf(out[i])
+		_, bj := loopOf(out[j])
+		return len(bi) < len(bj)
+	})
+	return out
+}
+
+// extractAt resolves a component of a spliced multi-return helper's result
+// where it is used: a return of the helper is excluded when what a test passed
+// on the way to node at says about another component contradicts what that
+// return gives it (`page, err := helper(); if err != nil { return }; use page`
+// uses the page of the returns whose error can be nil). nil unless exactly one
+// return remains.
+func (g *IG) extractAt(ex *ssa.Extract, at int) ssa.Value {
+	call, ok := ex.Tuple.(*ssa.Call)
+	if !ok {
+		return nil
+	}
+	h := g.M.helperOf(call)
+	if h == nil {
+		return nil
+	}
+	if _, inGraph := g.Idx[call]; !inGraph {
+		return nil
+	}
+	facts := g.FactsAt(at)
+	var res ssa.Value
+	n := 0
+	for _, b := range h.Blocks {
+		last := g.First[b] + len(b.Instrs) - 1
+		ir, ok := g.Ins[last].(*inlRet)
+		if !ok {
+			continue
+		}
+		ret := ir.Instruction.(*ssa.Return)
+		if ex.Index >= len(ret.Results) {
+			return nil
+		}
+		feasible := true
+		for _, f := range facts {
+			fe, ok := f.X.(*ssa.Extract)
+			if !ok || fe.Tuple != ex.Tuple || fe.Index >= len(ret.Results) || f.Y == nil {
+				continue
+			}
+			k, isK := f.Y.(*ssa.Const)
+			if !isK {
+				continue
+			}
+			o := ret.Results[fe.Index]
+			if oc, isC := o.(*ssa.Const); isC {
+				if k.Value == nil && oc.Value == nil && nillable(k.Type()) {
+					if f.Op == token.NEQ {
+						feasible = false
+					}
+				} else if dec, val := foldConstCmp(f.Op, oc, k); dec && !val {
+					feasible = false
+				}
+			} else if k.Value == nil && nillable(k.Type()) && f.Op == token.EQL && g.M.nonNilErrorGlobal(o) {
+				feasible = false
+			}
+		}
+		// (the returns were threaded through the caller's test of the result: a
+		// return that cannot lead to the use is not the one)
+		if feasible {
+			cn := g.Idx[call]
+			if r := g.Reach(g.Succ[last], nil, func(k int) bool { return k == cn }); !r[at] {
+				feasible = false
+			}
+		}
+		if feasible {
+			res = ret.Results[ex.Index]
+			n++
+		}
+	}
+	if n != 1 {
+		return nil
+	}
+	return res
 }
